@@ -89,7 +89,8 @@ def PL(p, band, tot):
 
 
 def LG(p, fn, gen, n):
-    return 'D("logger", %s, %s, "%s", %s)' % (p, fn, gen, n)
+    """gen: a TLA+ expression (a bound variable or a quoted string)"""
+    return 'D("logger", %s, %s, %s, %s)' % (p, fn, gen, n)
 
 
 def seq(*items):
@@ -129,7 +130,7 @@ def replay_space(tier):
             cfgset("", epochs="1", runs="2", cbs=seq(TV, R)),
             # Logger
             cfgset('g \\in {"default", "custom", "junk"}, f \\in BOOLEAN', epochs="3", cbs=seq(R, LG(2, "f", "g", 2))),
-            cfgset("k \\in 0..1", epochs="1", cbs=seq(LG(1, "FALSE", "default", "k"), R)),
+            cfgset("k \\in 0..1", epochs="1", cbs=seq(LG(1, "FALSE", '"default"', "k"), R)),
             # LivePlotting
             cfgset("q \\in {<<1, 2>>, <<2, 1>>, <<2, 3>>}", epochs="3",
                    cbs=seq(R, EV("q[1]"), PL("q[2]", "q[1] = 2", "IF q[2] = 2 THEN 3 ELSE 0")), time="TRUE"),
@@ -153,12 +154,12 @@ def replay_space(tier):
             [seq(R, TV), seq(TV, R), seq(R, TQ)]), epochs="e", runs="2", again="a", entryStop="es", cbs="c", time="tf"),
         cfgset('p \\in 1..3, g \\in {"default", "custom", "junk"}, f \\in BOOLEAN, k \\in 0..2', epochs="3",
                cbs=seq(R, LG("p", "f", "g", "k"))),
-        cfgset("k \\in 0..2, s \\in 0..1", startEp="s", cbs=seq(LG(2, "FALSE", "custom", "k"), R), time="TRUE"),
+        cfgset("k \\in 0..2, s \\in 0..1", startEp="s", cbs=seq(LG(2, "FALSE", '"custom"', "k"), R), time="TRUE"),
         cfgset("pe \\in 1..2, pp \\in 1..3, bd \\in BOOLEAN, e \\in 1..3", epochs="e",
                cbs=seq(R, EV("pe"), PL("pp", "bd", "IF bd THEN e ELSE 0")), time="TRUE"),
         cfgset("pe \\in 1..2, pp \\in 1..3, v \\in {%s}, s \\in 0..1" % ", ".join(VALS), startEp="s", epochs="3",
                nb="2", cbs=seq(EV("pe"), PL("pp", "TRUE", 2), R), vals="v", errs=ERRS[1]),
-        cfgset("pe \\in 1..2, pp \\in 1..2", epochs="3", cbs=seq(R, PL("pp", "TRUE", 0), EV("pe"), LG(1, "FALSE", "default", 1))),
+        cfgset("pe \\in 1..2, pp \\in 1..2", epochs="3", cbs=seq(R, PL("pp", "TRUE", 0), EV("pe"), LG(1, "FALSE", '"default"', 1))),
         cfgset("pp \\in 1..3, bd \\in BOOLEAN", epochs="2", cbs=seq(R, EV(1, "obs"), PL("pp", "bd", 0)), time="TRUE"),
         cfgset("e \\in 0..1, pb \\in %s" % PB, epochs="e", progbar="pb", cbs=seq(R, EV(1), PL(2, "FALSE", 4)), time="TRUE"),
         cfgset('pp \\in 1..2, a \\in {"reset", "keep"}, pb \\in {"off", "on"}', epochs="2", runs="2", again="a",
@@ -172,7 +173,7 @@ def wide_space(tier):
     quick = tier == "quick"
     e = "1..2" if quick else "0..3"
     lists = [seq(R, TV), seq(TV, R), seq(R, TQ, R), seq(R, EV("pe"), PL("pp", "TRUE", 2)), seq(R, PL("pp", "FALSE", 0), EV("pe")),
-             seq(EV("pe", "obs"), PL("pp", "TRUE", 0), R), seq(R, EV("pe"), LG("pp", "TRUE", "custom", 1), PL("pp", "TRUE", 1), TV, R)]
+             seq(EV("pe", "obs"), PL("pp", "TRUE", 0), R), seq(R, EV("pe"), LG("pp", "TRUE", '"custom"', 1), PL("pp", "TRUE", 1), TV, R)]
     out = []
     for l in (lists[:1] + lists[3:5] + lists[6:] if quick else lists):
         out.append(cfgset("e \\in %s, n \\in 1..2, s \\in %s, pe \\in 1..2, pp \\in 1..3, tf \\in BOOLEAN, es \\in %s, "
@@ -185,7 +186,8 @@ def wide_space(tier):
 
 
 def tlc_model(shards, export=True, invariants=INV, widgets=False, latch=True, liveness=False, defs_over=None,
-              timeout=900):
+              timeout=900, workers=WORKERS):
+    """workers=1 for runs that are expected to stop at a violation: the state count at the stop is then reproducible"""
     d = {"Shards": "1..%d" % len(shards),
          "CfgsOf(shardNo)": "CASE " + " [] ".join("shardNo = %d -> %s" % (i + 1, t) for i, t in enumerate(shards))}
     if defs_over:
@@ -194,7 +196,7 @@ def tlc_model(shards, export=True, invariants=INV, widgets=False, latch=True, li
                    spec="Spec" if liveness else None, properties=["Terminates"] if liveness else (),
                    invariants=list(invariants) + (["MC_Export"] if export else []),
                    extends_extra=["Json"], extra_text=EXPORT if export else "",
-                   workers=WORKERS, heap=HEAP, timeout=timeout)
+                   workers=workers, heap=HEAP, timeout=timeout)
 
 
 def beh_from_export(x):
@@ -1195,20 +1197,20 @@ def _run(chk, tier, seed, quick, rng, info, pool):
                            epochs="1", runs="2", again="a", cbs="c", time="tf")]
         ctl = {
             "the code's per-object latch must violate the per-fit reading of the Timer docstring (PerFitNotice)":
-                ex.submit(tlc_model, two_fits, False, ["PerFitNotice"]),
+                ex.submit(tlc_model, two_fits, False, ["PerFitNotice"], workers=1),
         }
         small = [cfgset("", epochs="3", cbs=seq(R, EV(1), PL(2, "TRUE", 0)), time="TRUE")]
         ctl["a Timer inserted first must violate TimerLast"] = ex.submit(
             tlc_model, small, False, ["TimerLast"], False, True, False,
-            {"Cbs(c)": "IF c.time THEN <<FlagTimer>> \\o c.cbs ELSE c.cbs"})
+            {"Cbs(c)": "IF c.time THEN <<FlagTimer>> \\o c.cbs ELSE c.cbs"}, workers=1)
         if not quick:
             ctl["a redraw that forgets the newest record must violate SeriesAreEvaluatorHistory"] = ex.submit(
                 tlc_model, small, False, ["SeriesAreEvaluatorHistory"], False, True, False,
                 {"Snapshot(d, H, e)": "[ep |-> e, xs |-> [j \\in 1..(Len(H) - 1) |-> H[j][1]], ys |-> [j \\in 1..(Len(H) - 1) |-> H[j][2]], "
-                                      "lo |-> <<>>, hi |-> <<>>]"})
+                                      "lo |-> <<>>, hi |-> <<>>]"}, workers=1)
             ctl["elapsed = start - end must violate ElapsedIsEndMinusStart"] = ex.submit(
                 tlc_model, small, False, ["ElapsedIsEndMinusStart"], False, True, False,
-                {"Clk(c, n)": "100 - n"})
+                {"Clk(c, n)": "100 - n"}, workers=1)
 
         # the documented / natural readings that the code does NOT follow (named deviations of the specification):
         # behaviours exported under such a reading must be refuted by the real classes
@@ -1233,7 +1235,7 @@ def _run(chk, tier, seed, quick, rng, info, pool):
                 lambda b: any(h["draw"] for h in b["ev"]))
 
         # ---- code -> spec: random sessions, recorded while TLC runs
-        n_tr = 32 if quick else 600
+        n_tr = 32 if quick else 1200
         jobs = [["trace", copy.deepcopy(c), sorted(pl), False, seed] for c, pl in donor_sessions()]
         n_tr += len(jobs)
         for i in range(n_tr - len(jobs)):
@@ -1257,7 +1259,7 @@ def _run(chk, tier, seed, quick, rng, info, pool):
             jobs.append(["replay", b, w, "positive"])
         sub = [bw for bw in behs if bw[0]["ev"] and bw[0]["cfg"]["nb"] <= 3]
         rng.shuffle(sub)
-        for b, w in sub[:(16 if quick else 400)]:
+        for b, w in sub[:(16 if quick else 800)]:
             jobs.append(["replay", b, w, "complex"])
         results = pool.map(jobs)
         _tick(t0, "%d work items done" % len(jobs))
